@@ -1,6 +1,7 @@
 import Qentem.Model.Tmpl.Render
 import Qentem.Model.Tmpl.WF
 import Qentem.Model.Tmpl.Spec
+import Qentem.Model.Tmpl.SpecGroup
 import Qentem.Model.GroupTmpl
 import Qentem.Driver.Expr
 import Qentem.Driver.Proto
@@ -17,16 +18,31 @@ Driver of the template model (C01/C02/C17).
 `<w>` (character width) is ignored by the model.  `<doc>`: comma-separated prefix code
   u | z | t | f | n<dec> | i<signed dec> | s<u.u.u> (s alone = empty) | a<count> doc… | p doc |
   o<count> (k<u.u.u> doc)…
+  r<16 hex> : a real number by its bit pattern
+  tplgroup <w> <doc> <key units>  the documented grouping (`groupDocSpec`, Model/Tmpl/SpecGroup.lean =
+                                `Qentem.Value.groupBySpec` by member NAME) of the array <doc> → `G <doc code>` | `G none`
 Real numbers are not rendered by this driver (`fmtReal` prints `?`); `groupBy` is the GroupBy model
 (`Qentem.Value.groupByTmpl`, Model/GroupTmpl.lean; C18); sort is not supported (`sortDoc` is the
 identity): the generators of the compared streams avoid `sort=`.
 -/
+
+def hexVal (c : Char) : Option Nat :=
+  if '0' ≤ c ∧ c ≤ '9' then some (c.toNat - '0'.toNat)
+  else if 'A' ≤ c ∧ c ≤ 'F' then some (c.toNat - 'A'.toNat + 10)
+  else if 'a' ≤ c ∧ c ≤ 'f' then some (c.toNat - 'a'.toNat + 10)
+  else none
+
+def parseHex (d : List Char) : Option Nat :=
+  d.foldl (fun acc c => match acc, hexVal c with
+    | some a, some v => some (a * 16 + v)
+    | _, _ => none) (some 0)
 
 partial def parseDoc : List String → Option (Doc × List String)
   | [] => none
   | tok :: rest =>
     match tok.toList with
     | ['p'] => parseDoc rest   -- a pointer value is transparent to every reader the renderer uses
+    | 'r' :: d => if d.length == 16 then (parseHex d).map (fun b => (.real b, rest)) else none
     | ['u'] => some (.undefined, rest)
     | ['z'] => some (.null, rest)
     | ['t'] => some (.tru, rest)
@@ -65,6 +81,18 @@ partial def parseDoc : List String → Option (Doc × List String)
             | [] => none
         goObj n [] rest
     | _ => none
+
+def showDots (u : List Nat) : String := ".".intercalate (u.map toString)
+
+/-- the doc code of a `Doc` (inverse of `parseDoc`; an Integer is printed from its 64-bit pattern) -/
+partial def showDoc : Doc → String
+  | .undefined => "u" | .null => "z" | .tru => "t" | .fals => "f"
+  | .nat n => s!"n{n}"
+  | .int b => if b < 2 ^ 63 then s!"i{b}" else s!"i-{2 ^ 64 - b}"
+  | .real b => "r" ++ String.ofList ((Nat.toDigits 16 (b + 2 ^ 64)).drop 1 |>.map Char.toUpper)
+  | .str s => "s" ++ showDots s
+  | .arr xs => ",".intercalate (s!"a{xs.length}" :: xs.map showDoc)
+  | .obj ms => ",".intercalate (s!"o{ms.length}" :: ms.map (fun m => "k" ++ showDots m.1 ++ "," ++ showDoc m.2))
 
 def showFault : Fault → String
   | .oobRead i n => s!"Foob:{i}/{n}"
@@ -211,6 +239,13 @@ def handle (op : String) : List String → String
           match renderTop (mkCtx u root) tags (4 * u.length + 100000) with
           | .error e => showFault e
           | .ok out => "R " ++ showNats out
+      | _, _ => "bad-op"
+    else if op == "tplgroup" then
+      match parseDoc (ds.splitOn ","), parseNats us with
+      | some (set, []), some key =>
+        match groupDocSpec (fun _ => [63]) set key with
+        | some g => "G " ++ showDoc g
+        | none => "G none"
       | _, _ => "bad-op"
     else if op == "tplspec" then
       -- `tplspec <w> <doc> <tpl tokens>` → `P <printed units> E <documented expansion>`
